@@ -40,10 +40,11 @@ Definition object_each_m (bs : list N) : res (option (list (list N * list N))) :
 Definition array_values_m (bs : list N) : res (option (list (list N))) :=
   lift_opt (fun v => option_map (map enc) (array_values_t v)) (doc_of bs).
 
-(* type_of looks at the first byte only when the input is text *)
+(* type_of looks at one byte only when the input is text *)
 Definition type_of_m (bs : list N) : res N :=
   if is_jsonb bs then do v <- parse_jsonb bs; Ok (type_of_t v)
-  else match bs with
+  (* after the fix: the first byte after what the parser skips in front of a value (was: the first byte) *)
+  else match skip_unused bs with
        | [] => Err EOther
        | c :: _ =>
            if c =? 110 then Ok 0
